@@ -1,3 +1,28 @@
 package main
 
-func selftest(argv []string) int { return 0 }
+import (
+	"fmt"
+	"os"
+)
+
+// selftest: the translator validation corpus (harness/selftest) must pass, and
+// a deliberately false assertion must be found, replayed natively and reported.
+func selftest(argv []string) int {
+	if rc := cmdCheck([]string{"-property", "selftest", "-no-evidence"}); rc != 0 {
+		fmt.Println("SELFTEST FAILED: the interpreter corpus does not pass")
+		return 1
+	}
+	// (the expected VIOLATION line of the must-fail case is not printed)
+	saved := os.Stdout
+	if null, err := os.OpenFile(os.DevNull, os.O_WRONLY, 0); err == nil {
+		os.Stdout = null
+	}
+	rc := cmdCheck([]string{"-property", "selftestfail", "-no-evidence"})
+	os.Stdout = saved
+	if rc != 1 {
+		fmt.Println("SELFTEST FAILED: a false assertion was not reported as a violation")
+		return 1
+	}
+	fmt.Println("selftest ok (corpus passes; the must-fail case was found and reproduced natively)")
+	return 0
+}
